@@ -37,7 +37,7 @@ def canon_event(world, ev):
 class Explorer:
     def __init__(self, init_fn, enabled_fn, apply_fn=None, monitors=(), state_monitors=(), extra_fn=None,
                  max_states=None, max_depth=None, time_cap=None, abstraction_checks=50, replay_every=0,
-                 stop_at_violation=False, expand_filter=None, label='', cover=None):
+                 stop_at_violation=False, expand_filter=None, label='', cover=None, continuous_init_fn=None):
         """
         init_fn()            -> fresh initial World (also used for replay validation)
         enabled_fn(world)    -> list of events
@@ -46,7 +46,12 @@ class Explorer:
                                (monitor, signature, message[, detail])
         state_monitors       : f(world) -> same, evaluated once per *distinct* state
         extra_fn(world)      -> hashable extra component of the canonical key (budgets etc.)
+        continuous_init_fn() -> the initial world with the daemons' event loops never left (harness/continuous.py): every
+                               history that is replayed for validation is replayed on such a world too and must reach the
+                               same canonical state (the stepping model is bound to the loop as it really runs)
         """
+        self.continuous_init_fn = continuous_init_fn
+        self.continuous_validated = 0
         self.init_fn, self.enabled_fn = init_fn, enabled_fn
         self.apply_fn = apply_fn or (lambda w, ev: w.step(ev))
         self.monitors, self.state_monitors = list(monitors), list(state_monitors)
@@ -89,6 +94,25 @@ class Explorer:
         for ev in history[len(base):]:
             self.apply_fn(w, ev)
         return w
+
+    def _validate_continuous(self, history, want_key):
+        if self.continuous_init_fn is None:
+            return
+        w = self.continuous_init_fn()
+        try:
+            base = list(w.history)
+            try:
+                for ev in history[len(base):]:
+                    self.apply_fn(w, ev)
+                k = self.key(w)
+            except HarnessError as ex:
+                k = 'replay failed: %s' % ex
+            if k != want_key:
+                raise HarnessError('the stepping model does not conform to the implementation: with the event loops never '
+                                   'left, the history %r reaches another state (%s)' % (history, k if isinstance(k, str) else 'other key'))
+            self.continuous_validated += 1
+        finally:
+            w.close()
 
     def _succ_keys(self, w):
         out = []
@@ -147,6 +171,7 @@ class Explorer:
                         raise HarnessError('replay of %r on a fresh world diverged from the forked world'
                                            % (c.history,))
                     self.replays_validated += 1
+                    self._validate_continuous(c.history, k)
                 if len(self.sample_histories) < 5 and depth + 1 >= 3:
                     self.sample_histories.append([repr(e) for e in c.history])
                 frontier.append((c, depth + 1))
@@ -166,6 +191,7 @@ class Explorer:
         if self.key(rep) != k:
             raise HarnessError('replay of representative history diverged: %r' % (self.seen[k],))
         self.replays_validated += 1
+        self._validate_continuous(self.seen[k], k)
         a, b = self._succ_keys(rep), self._succ_keys(dup_world)
         self.abstraction_checks += 1
         if a != b:
@@ -175,7 +201,7 @@ class Explorer:
     def stats(self):
         return dict(label=self.label, states=self.states, transitions=self.transitions,
                     max_depth=self.max_depth_seen, abstraction_checks=self.abstraction_checks,
-                    replays_validated=self.replays_validated, caps_hit=self.caps_hit, completed=self.completed,
+                    replays_validated=self.replays_validated, continuous_validated=self.continuous_validated, caps_hit=self.caps_hit, completed=self.completed,
                     violations=len(self.violations), wall_s=round(self.wall, 2))
 
     def summary(self):
@@ -210,6 +236,10 @@ def _par_expand(job):
         ex.apply_fn(w, ev)
     if want_key is not None and ex.key(w) != want_key:
         raise HarnessError('replay of %r from the initial world diverged from the forked world' % (history,))
+    if want_key is not None and hash(repr(history)) % 200 == 0:
+        ex._validate_continuous(list(history), want_key)
+        ex.cover['continuous-validated'] += 1
+        ex.continuous_validated = 0
     before = collections.Counter(ex.cover)
     viol, children = [], []
     for sm in ex.state_monitors:
